@@ -219,7 +219,7 @@ fn handle(req: &Value) -> Value {
                 match r {
                     Ok(StepResult::Continue) => json!("Continue"),
                     Ok(StepResult::Complete(v)) => json!({"complete": js_to_json(v.value())}),
-                    Ok(StepResult::NeedImports(l)) => json!({"need_imports": l.len()}),
+                    Ok(StepResult::NeedImports(l)) => json!({"need_imports": l.iter().map(|x| json!([x.specifier, x.resolved_path.as_str(), x.importer.as_ref().map(|p| p.as_str().to_string())])).collect::<Vec<Value>>()}),
                     Ok(StepResult::Suspended { pending, cancelled }) => json!({"suspended": {"pending": pending.iter().map(|o| o.id.0).collect::<Vec<u64>>(), "cancelled": cancelled.iter().map(|o| o.0).collect::<Vec<u64>>()}}),
                     Ok(StepResult::Done) => json!("Done"),
                     Err(e) => json!({"error": format!("{}", e)}),
